@@ -79,6 +79,17 @@ def hdr_nontrivial(f):
     return bool(f.get("seg") or f.get("mor") or f.get("sa") or f.get("srv") or f.get("nak"))
 
 
+CT = dict(choice="service", invokeID="invoke", nak="nak", srv="srv", sequenceNumber="seq", windowSize="win", reason="reason")
+_ctor_cache = {}
+
+
+def _ctor_params(klass):
+    if klass not in _ctor_cache:
+        import inspect
+        _ctor_cache[klass] = [p_.name for p_ in list(inspect.signature(klass.__init__).parameters.values())[1:] if p_.kind == p_.POSITIONAL_OR_KEYWORD]
+    return _ctor_cache[klass]
+
+
 def check_header(f, data):
     """encode through the library, compare with the reference, decode back. -> list of (sig, msg)"""
     A, PDU, DecodingError = lib()
@@ -97,6 +108,41 @@ def check_header(f, data):
     except Exception as err:
         return [("hdr:%s:encode-raised:%s" % (name, type(err).__name__), "encode of %r raised %r" % (f, err))]
     want = R.encode(dict(f, data=data))
+    # the same PDU built through the typed class's constructor arguments, positionally and by keyword
+    if octets == want:
+        klass = A.apdu_types[f["type"]]
+        names = _ctor_params(klass)
+        for mode in ("positional", "keyword"):
+            try:
+                if mode == "positional":
+                    # (only the leading run of mapped parameters can be given by position)
+                    lead = []
+                    for nm in names:
+                        if nm in CT and CT[nm] in f:
+                            lead.append(f[CT[nm]])
+                        else:
+                            break
+                    typed2 = klass(*lead)
+                    given = set(CT[nm] for nm in names[:len(lead)])
+                else:
+                    kw = dict((nm, f[CT[nm]]) for nm in names if nm in CT and CT[nm] in f)
+                    typed2 = klass(**kw)
+                    given = set(CT[nm] for nm in kw)
+                for k, v in f.items():
+                    if k not in given and k != "type":
+                        setattr(typed2, ATTR[k], v)
+                typed2.pduData = bytearray(data)
+                g3 = A.APDU()
+                typed2.encode(g3)
+                p3 = PDU()
+                g3.encode(p3)
+                o3 = bytes(p3.pduData)
+            except Exception as err:
+                return [("hdr:%s:constructor-raised:%s" % (name, type(err).__name__), "%s construction of %r raised %r" % (mode, f, err))]
+            if o3 != want:
+                n = min(len(o3), len(want))
+                pos = next((i for i in range(n) if o3[i] != want[i]), n)
+                return [("hdr:%s:constructor-arguments-lost:octet%d" % (name, min(pos, 6)), "fields %r given as %s constructor arguments: library %s, clause 20.1 layout %s" % (f, mode, o3.hex(), want.hex()))]
     if octets != want:
         n = min(len(octets), len(want))
         pos = next((i for i in range(n) if octets[i] != want[i]), n)
